@@ -554,4 +554,93 @@ func cmdC20(seed uint64, tier, outdir string) {
 	}
 	cw.close()
 	iw.close()
+	// bursts: thousands of elements with distinct priorities pushed, some removed or re-prioritised, then drained
+	// (a queue that grows large and shrinks again is what MultipleMatch does with its candidates). Too long for
+	// the extracted list model; the oracle is the specification itself: every Pop returns the least live element,
+	// the indices reported through setIndex stay accurate, the multiset is conserved.
+	bw := mustCreate(outdir, "burst.verdicts")
+	bc := mustCreate(outdir, "burst.cases")
+	for _, n := range []int{1793 + r.intn(300), 2048 + r.intn(2100), 4097, 300 + r.intn(700)} {
+		bc.printf("burst of %d\n", n)
+		verdict := ""
+		func() {
+			defer func() {
+				if rec := recover(); rec != nil {
+					verdict = fmt.Sprintf("panicked: %v", rec)
+				}
+			}()
+			q := pq.NewQueue(
+				func(x, y interface{}) bool { return x.(*pqItem).prio < y.(*pqItem).prio },
+				func(x interface{}, idx int) { x.(*pqItem).index = idx })
+			live := map[int]*pqItem{}
+			perm := make([]int, n)
+			for i := range perm {
+				perm[i] = i
+			}
+			for i := n - 1; i > 0; i-- {
+				j := r.intn(i + 1)
+				perm[i], perm[j] = perm[j], perm[i]
+			}
+			for i := 0; i < n; i++ {
+				it := &pqItem{id: i, prio: perm[i] * 3, index: -1}
+				live[i] = it
+				q.Push(it)
+			}
+			for k := 0; k < n/10; k++ { // a few removals and priority changes through the reported indices
+				id := r.intn(n)
+				it := live[id]
+				if it == nil {
+					continue
+				}
+				if r.chance(1, 2) {
+					q.Remove(it.index)
+					delete(live, id)
+				} else {
+					it.prio = it.prio + 1 - 2*r.intn(2)
+					q.Fix(it.index)
+				}
+			}
+			prev := -1 << 60
+			for len(live) > 0 {
+				if q.Len() != len(live) {
+					verdict = fmt.Sprintf("Len %d with %d live elements", q.Len(), len(live))
+					return
+				}
+				it := q.Pop().(*pqItem)
+				if live[it.id] != it {
+					verdict = fmt.Sprintf("Pop returned element %d which is not live (duplicate or removed)", it.id)
+					return
+				}
+				if it.prio < prev {
+					verdict = fmt.Sprintf("Pop returned priority %d after %d", it.prio, prev)
+					return
+				}
+				prev = it.prio
+				delete(live, it.id)
+				for _, x := range q.VerifArray()[:min2(q.Len(), 3)] {
+					if q.VerifArray()[x.(*pqItem).index] != x {
+						verdict = "an index reported through setIndex is stale"
+						return
+					}
+				}
+			}
+			if q.Len() != 0 {
+				verdict = fmt.Sprintf("Len %d after the last live element was popped", q.Len())
+			}
+		}()
+		if verdict == "" {
+			bw.printf("OK 1\n")
+		} else {
+			bw.printf("VIOL - burst of %d elements: %s\n", n, verdict)
+		}
+	}
+	bw.close()
+	bc.close()
+}
+
+func min2(a, b int) int {
+	if a < b {
+		return a
+	}
+	return b
 }
